@@ -94,7 +94,8 @@ def _judge(case, b):
         obs = P.obs_canon(pl.obs) or ()
         if pl.exc is not None and not isinstance(pl.exc, P.Interrupt):
             viols.append(viol('replay:escaped:%s' % type(pl.exc).__name__, 'replay of a stored complete recording failed', 'Playback', repr(pl.exc)))
-        elif any(o == ('exc', 'RecordingKeyError') for o in obs):
+        elif any(o == ('exc', 'RecordingKeyError') and (rid != r1.rec_id or i >= len(P.obs_canon(r1.obs) or ()) or P.obs_canon(r1.obs)[i] != o)
+                 for i, o in enumerate(obs)):   # (a body may itself have raised that type while recording: then it is the recorded outcome)
             viols.append(viol('replay:missing-key', 'a saved, complete recording replays with a missing-key error on unchanged code', 'no RecordingKeyError', obs))
         elif rid == r1.rec_id and obs != P.obs_canon(r1.obs):
             viols.append(viol('replay:obs-differ', 'stored complete recording replays differently', P.obs_canon(r1.obs), obs))
